@@ -172,6 +172,17 @@ impl Twin {
             }
           }
         }
+        "add_batch" => {
+          if !self.failed {
+            let docs: Vec<Document> = op["docs"].as_array().map(|a| a.iter().map(|d| to_document(&d["doc"])).collect()).unwrap_or_default();
+            if let Some(w) = self.writer.as_mut() {
+              if let Err(e) = w.add_documents(&docs) {
+                note(format!("add_documents: {e}"), &mut first_err);
+                self.failed = true;
+              }
+            }
+          }
+        }
         "delete" => {
           if !self.failed {
             let ids: Vec<String> = op["ids"].as_array().map(|a| a.iter().filter_map(|x| x.as_str().map(String::from)).collect()).unwrap_or_default();
@@ -245,15 +256,12 @@ fn native_denote(f: &Value) -> Vec<Value> {
     "cli_commit" => vec![open, nw, json!({"op":"commit"}), dw],
     "cli_compact" => vec![open, json!({"op":"compact"})],
     "http_add" | "http_bulk" => {
-      let docs = adds(&f["docs"]);
-      if docs.is_empty() && f["kind"] == json!("http_add") {
+      // `IndexWriter::add_documents`: the request's documents are queued as one unit
+      let n = f["docs"].as_array().map(|a| a.len()).unwrap_or(0);
+      if n == 0 && f["kind"] == json!("http_add") {
         return vec![];
       }
-      let mut v = vec![nw];
-      v.extend(docs);
-      v.push(json!({"op":"rollback_if_failed"}));
-      v.push(dw);
-      v
+      vec![nw, json!({"op":"add_batch","docs": f["docs"]}), dw]
     }
     "http_delete" => vec![nw, json!({"op":"delete","ids": f["ids"]}), dw],
     "http_commit" => {
@@ -559,7 +567,9 @@ impl Prop for C25 {
             })
             .collect();
           if rng.chance(1, 6) {
-            let bad = match rng.below(4) {
+            let bad = match rng.below(5) {
+              // rejected when queued since /repo 37df93e (unknown top-level member)
+              4 => json!({"_id": "bad3", "body": "unknown member", "zzz": 1}),
               0 => json!({"body": "no id"}),
               1 => json!({"_id": "bad1", "body": 17}),
               2 => json!({"_id": "  ", "body": "blank id"}),
